@@ -1034,7 +1034,7 @@ class _Filtered:
           "port / port into a definition / first reference assignment installs OuterPin(instance, pin) under key pin for every "
           "reference x pin on all paths; M2/M6 every unlink disconnects, deletes and nulls each affected outer pin, disconnect first; "
           "M3 the reference setter keeps both reference sets in step on every path; M4 re-pointing re-keys (never rebuilds) outer pins "
-          "under the port-shape check; M5 top-instance wrapping goes through the reference setter; M7 who-may-write. Does not decide "
+          "under the port-shape check; M5 top-instance wrapping goes through the reference setter; M7 who-may-write; bulk removals of ports / pins unlink the instance pins in a loop over exactly the set the rebuilt list excludes; M9 no mirror state is written (directly or inside a helper) before a point where the edit can still be refused. Does not decide "
           "that positional correspondence is the right correspondence.")
 def check_c02(ctx, R):
     R.rule("M8", "the reorder setters of Port.pins and Definition.ports can only permute (a setter that drops or adds a "
